@@ -13,7 +13,7 @@ P_impl          evaluated on the implementation for every explored case, without
                 cppcheckError per crashed file; findings of the other files all present; nothing reported that the
                 fault-free run does not report; exit status == --error-exitcode
 """
-import concurrent.futures, json, os, re, subprocess, time
+import concurrent.futures, json, os, re, shutil, subprocess, time
 from .. import core, build_repo
 
 ID = "C21"
@@ -21,7 +21,7 @@ LEVEL = "proof"
 RULE = ("case = (project, set of crashing files, crash point k = number of complete pipe messages before death, "
         "mode segv|exit|abort, jobs, scheduling seed); distinct = different tuple; non-trivial = at least one worker really dies "
         "(k <= number of messages the worker sends); quick: every k of every file x {segv,exit} x jobs {2,3} + sampled pairs; "
-        "thorough: the same x 3 scheduling seeds + all pairs + all-files + abort mode")
+        "thorough: x jobs {2,3} x scheduling seeds {none,1,2} + all pairs + all-files + abort mode")
 EXPLANATION = ("Lean: the parent loop of ProcessExecutor::check as a transition system (worker progress/death interleaved with "
                "spawn/select/waitpid phases); proved for every schedule and every fault set at frame boundaries: termination under "
                "fairness, closed-form log and result in every final state. Per-file analysis results (frame lists) are inputs. "
@@ -54,6 +54,22 @@ CLEAN2 = {
     "c2_q.c": "int k2(int v) { return v * 2; }\n",
 }
 PROJECTS = {"proj4": PROJ4, "clean2": CLEAN2}
+
+
+def private_binary(ctx, envname):
+    """a private copy of the freshly built binary (colleagues' checks relink .build/o1/bin/cppcheck in place while this
+    check runs); copied under the build lock, with the cfg/platforms/addons links cppcheck looks up next to its executable"""
+    if os.environ.get(envname):
+        return os.environ[envname]
+    d = os.path.join(ctx.tmp, "bin")
+    os.makedirs(d, exist_ok=True)
+    dst = os.path.join(d, "cppcheck")
+    if not os.path.exists(dst):
+        with build_repo.Lock("repo-" + ctx.variant):
+            shutil.copy2(ctx.cppcheck, dst)
+        for sub in ("cfg", "platforms", "addons"):
+            os.symlink(os.path.join(core.REPO, sub), os.path.join(d, sub))
+    return dst
 
 
 class Proj:
@@ -92,7 +108,7 @@ class Proj:
             self.fid[text] = len(self.fid) + 1
         return self.fid[text]
 
-    def learn(self):
+    def learn(self, res=None):
         """frame list of every file from a fault-free single-file --debug-ipc run (the per-file analysis is an input of the model)"""
         for f in self.files:
             rc, out, err, _ = self.run(2, [f], extra=["--debug-ipc"])
@@ -101,6 +117,15 @@ class Proj:
             types = re.findall(r"^handleRead - ([1-7]) - ", out, re.M)
             lines = [l for l in err.split("\n") if l.strip()]
             if not types or types[-1] != "5" or "5" in types[:-1]:
+                # the fault-free process-executor run itself is broken: compare with the single-job run of the same file
+                r1 = subprocess.run([self.bin, "--error-exitcode=%d" % EXITCODE, "--template=" + TEMPLATE, f], cwd=self.dir,
+                                    stdout=subprocess.PIPE, stderr=subprocess.PIPE, timeout=TIMEOUT)
+                l1 = sorted(l for l in r1.stderr.decode("latin-1").split("\n") if l.strip())
+                if res is not None and (sorted(lines) != l1 or rc != r1.returncode):
+                    res.violation("fault-free run `-j2 --executor=process %s` reports %s (exit %s), the single-job run reports %s (exit %s)" %
+                                  (f, sorted(lines), rc, l1, r1.returncode),
+                                  dict(case=dict(project=self.name, substr="(none)", k=0, mode="segv", jobs=2, seed=None, faultfree=f),
+                                       files=PROJECTS[self.name]), concrete=True, key=None)
                 raise core.CheckBroken("C21: unexpected frame trace for %s: %s" % (f, types))
             m = re.findall(r"^handleRead - 5 - (\d+)\s*$", out, re.M)
             if len(m) != 1:
@@ -219,7 +244,8 @@ def enumerate_cases(ctx, projs, thorough):
     rng = ctx.rng
     cases = []
     p4, c2 = projs["proj4"], projs["clean2"]
-    seeds = [None, 1, 2, 3] if thorough else [None]
+    seeds = [None, 1, 2] if thorough else [None]
+    pseeds = [None, 1] if thorough else [None]
     modes = ["segv", "exit"]
     # single crashers: every k of every file (k = total+1: the hook never fires, fault-free control)
     for proj in (p4, c2):
@@ -232,16 +258,16 @@ def enumerate_cases(ctx, projs, thorough):
                             for sd in seeds:
                                 cases.append(dict(project=proj.name, substr=tag, k=k, mode=mode, jobs=jobs, seed=sd))
                 else:
-                    # quick: every k of every file once per mode; jobs / seeding alternate
+                    # quick: every k of every file once; mode / jobs / seeding alternate
                     flip = rng.randrange(2)
-                    cases.append(dict(project=proj.name, substr=tag, k=k, mode="segv", jobs=2 + flip, seed=None))
-                    cases.append(dict(project=proj.name, substr=tag, k=k, mode="exit", jobs=3 - flip, seed=rng.randrange(1, 1000)))
+                    cases.append(dict(project=proj.name, substr=tag, k=k, mode=("segv", "exit")[(k + i + flip) % 2], jobs=2 + (k + flip) % 2,
+                                      seed=None if (k + i) % 2 else rng.randrange(1, 1000)))
     # pairs of simultaneous crashers (same k relative to each worker: the hook takes one spec)
     pairs = [dict(project="proj4", substr="p%d%d" % (a, b), k=k, mode=mode, jobs=jobs, seed=sd)
              for a in range(4) for b in range(a + 1, 4) for k in range(0, max(p4.total(f) for f in p4.files) + 1)
-             for mode in modes for jobs in (2, 3) for sd in (seeds if thorough else [None])]
+             for mode in modes for jobs in (2, 3) for sd in pseeds]
     pairs += [dict(project="clean2", substr="_q", k=k, mode=mode, jobs=jobs, seed=sd)
-              for k in range(0, 4) for mode in modes for jobs in (2, 3) for sd in (seeds if thorough else [None])]
+              for k in range(0, 4) for mode in modes for jobs in (2, 3) for sd in pseeds]
     if thorough:
         cases += pairs
         for k in range(0, max(p4.total(f) for f in p4.files) + 1):
@@ -253,7 +279,7 @@ def enumerate_cases(ctx, projs, thorough):
                 for k in range(0, proj.total(f) + 1):
                     cases.append(dict(project=proj.name, substr=f.split("_")[0], k=k, mode="abort", jobs=2, seed=rng.randrange(1, 1000)))
     else:
-        for c in rng.sample(pairs, 16):
+        for c in rng.sample(pairs, 10):
             c["seed"] = rng.randrange(1, 1000)
             cases.append(c)
         for k in (0, 3):
@@ -330,10 +356,10 @@ def run(ctx, res):
     core.prove(ctx, res, MODULES, THEOREMS)
     drv = ctx.driver("drv_c21")
     shape_ok = source_shape(res)
-    binary = os.environ.get("VERIF_C21_BIN") or ctx.cppcheck
+    binary = private_binary(ctx, "VERIF_C21_BIN")
     projs = {n: Proj(ctx, n, binary) for n in PROJECTS}
     for p in projs.values():
-        p.learn()
+        p.learn(res)
     res.extra["frames"] = {n: {f: ",".join(p.frames[f]) + ",end%d" % p.rc[f] for f in p.files} for n, p in projs.items()}
     # corpus first
     corpus = [resolve_k(projs[c["project"]], c) for c in load_corpus()]
@@ -341,8 +367,8 @@ def run(ctx, res):
         explore(ctx, res, drv, projs, corpus, "corpus")
     cases = enumerate_cases(ctx, projs, thorough)
     mism, nviol = explore(ctx, res, drv, projs, cases, "worker-faults")
-    res.extra["exhaustive"] = dict(dimension="crash point k in 0..messages+1 for every file x {segv, exit}"
-                                   + (" x jobs {2,3} x scheduling seeds {none,1,2,3}; all pairs; all files" if thorough else ""), value=True)
+    res.extra["exhaustive"] = dict(dimension="crash point k in 0..messages+1 for every file"
+                                   + (" x {segv, exit} x jobs {2,3} x scheduling seeds {none,1,2}; all pairs; all files" if thorough else ""), value=True)
     # an obligation broke but no concrete failing input yet: widen to the thorough enumeration with more seeds
     if not thorough and any(not o["ok"] for o in res.obligations) and not any(v["concrete"] for v in res.violations):
         wide = enumerate_cases(ctx, projs, True)
@@ -351,7 +377,7 @@ def run(ctx, res):
 
 
 def replay(ctx, res, rp):
-    binary = os.environ.get("VERIF_C21_BIN") or ctx.cppcheck
+    binary = private_binary(ctx, "VERIF_C21_BIN")
     c = rp["case"]
     proj = Proj(ctx, c["project"], binary)
     proj.learn()
